@@ -157,10 +157,10 @@ def case_expr(lets, parts):
     return "(%s sjoin \"%s\" [%s])%%string" % (head, SEP, "; ".join("(%s)%%string" % x for x in parts))
 
 
-def eval_cases(tag, per_case, shard=60):
+def eval_cases(tag, per_case, shard=60, defs=""):
     """per_case: list of (lets, parts, keys). Returns ({key: value}, errors)."""
     exprs = [case_expr(lets, parts) for lets, parts, _ in per_case]
-    vals, errs = core.coq_eval(tag, IMPORTS, exprs, shard=shard)
+    vals, errs = core.coq_eval(tag, IMPORTS, exprs, shard=shard, defs=defs)
     out = {}
     errs = list(errs)
     for (lets, parts, keys), v in zip(per_case, vals):
